@@ -72,6 +72,11 @@ type prepared struct {
 	cache   string   // replaces the certificate cache path
 	args    []string // additional arguments
 	operand string   // offending path/address (informational: is it in the message?)
+	// anchor: the beginning of the operand as far as it is the fault's own (the
+	// first path component below the case directory, the host name without its
+	// port); "" = the operand.  Engine long reads the program's own words
+	// about the cause off the text that follows the last such token.
+	anchor string
 	// defaultCache: no -tls-certificate-cache argument at all, the cache is in
 	// its default location, which the environment below makes unusable.
 	defaultCache bool
@@ -108,6 +113,21 @@ type env struct {
 	// ttyw: how a /dev/tty that is there but unusable can be made here (nil:
 	// not at all).
 	ttyw *ttyWorld
+	// lfaults: the faults of engine long (long operands and their short
+	// twins), addressed by index longBase+i; built on demand, see long.go.
+	lmu     sync.Mutex
+	lfaults []fault
+	twins   map[string]*twinResult
+}
+
+// fault resolves a fault index of a case.
+func (e *env) fault(i int) fault {
+	if i >= longBase {
+		e.lmu.Lock()
+		defer e.lmu.Unlock()
+		return e.lfaults[i-longBase]
+	}
+	return e.faults[i]
 }
 
 func must(err error) {
@@ -317,6 +337,8 @@ type caseSpec struct {
 	// tty: nil, or what /dev/tty is in the private mount namespace the program
 	// is started in (engines badtty, badttypair).
 	tty *badTTY
+	// long: nil, or what engines long / longpair / longtwin need to know.
+	long *longInfo
 }
 
 // Ways of configuring an openable log file: through the flag or through the
@@ -340,7 +362,7 @@ func openableLog(dir, mode string) string {
 func (e *env) names(c caseSpec) []string {
 	var n []string
 	for _, i := range c.faults {
-		n = append(n, e.faults[i].name)
+		n = append(n, e.fault(i).name)
 	}
 	if c.noTTY {
 		n = append(n, clNoTTY)
@@ -355,7 +377,7 @@ func (e *env) names(c caseSpec) []string {
 func (e *env) classes(c caseSpec) []string {
 	m := map[string]bool{}
 	for _, i := range c.faults {
-		m[e.faults[i].class] = true
+		m[e.fault(i).class] = true
 	}
 	if c.noTTY || c.tty != nil {
 		m[clNoTTY] = true
@@ -370,7 +392,7 @@ func (e *env) classes(c caseSpec) []string {
 
 func (e *env) hasClass(c caseSpec, class string) bool {
 	for _, i := range c.faults {
-		if e.faults[i].class == class {
+		if e.fault(i).class == class {
 			return true
 		}
 	}
@@ -453,10 +475,14 @@ type runRecord struct {
 	// what /dev/tty is in the program's private mount namespace
 	DevTTY string `json:"dev_tty_is,omitempty"`
 	// an openable log file configured on top of the faults
-	Log      string `json:"openable_log_file,omitempty"`
-	LogThere *bool  `json:"log_file_exists_after_run,omitempty"`
-	LogBytes int64  `json:"log_file_bytes_after_run,omitempty"`
-	LogTail  string `json:"log_file_tail,omitempty"`
+	// engine long: lengths and shapes of the operands, and what was looked for
+	Long      string `json:"long_operands,omitempty"`
+	CauseTail string `json:"cause_words_of_the_same_fault_with_short_operands,omitempty"`
+	TailFound *bool  `json:"cause_words_found_in_this_message,omitempty"`
+	Log       string `json:"openable_log_file,omitempty"`
+	LogThere  *bool  `json:"log_file_exists_after_run,omitempty"`
+	LogBytes  int64  `json:"log_file_bytes_after_run,omitempty"`
+	LogTail   string `json:"log_file_tail,omitempty"`
 }
 
 func (e *env) runCase(c caseSpec, col *collector) {
@@ -479,13 +505,19 @@ func (e *env) runCase(c caseSpec, col *collector) {
 	cache := filepath.Join(dir, "kc", "cert.txtar")
 	var extra []string
 	var operands []string
+	var anchors []string // where, in a message, the offending operands begin (engine long)
 	uid := 0
 	strong := c.flag == flNone
 	defaultCache := false
 	envv := crs.Env(dir)
 	for _, i := range c.faults {
-		f := e.faults[i]
+		f := e.fault(i)
 		pr := f.prep(e, dir)
+		if pr.anchor != "" {
+			anchors = append(anchors, pr.anchor)
+		} else if pr.operand != "" {
+			anchors = append(anchors, pr.operand)
+		}
 		if pr.defaultCache {
 			defaultCache = true
 		}
@@ -536,6 +568,9 @@ func (e *env) runCase(c caseSpec, col *collector) {
 		args = append(args, "-tls-certificate-cache", cache)
 	}
 	args = append(args, extra...)
+	if c.long != nil {
+		args = append(args, c.long.extraArgs...)
+	}
 	switch c.flag {
 	case flTemplate, flHelp:
 		args = append(args, c.flag)
@@ -561,7 +596,13 @@ func (e *env) runCase(c caseSpec, col *collector) {
 	if c.tty != nil {
 		classKey += "@unusable-dev-tty"
 	}
+	if c.long != nil && !c.long.twin {
+		classKey += "@long-operand"
+	}
 	sig := fmt.Sprintf("%v|%s|tty=%v", names, c.flag, !c.noTTY)
+	if c.long != nil {
+		sig += "|" + c.long.sig
+	}
 	if c.logMode != "" {
 		sig += "|openable-log=" + c.logMode
 	}
@@ -638,6 +679,11 @@ func (e *env) runCase(c caseSpec, col *collector) {
 		}
 	}
 	rec := runRecord{Faults: names, Flag: c.flag, TTY: !c.noTTY, Uid: uid, Args: args, Exited: exited, Listening: listening}
+	if c.long != nil {
+		// operands of several thousand bytes: the witness shows their ends and length
+		rec.Args = abbrevAll(args)
+		rec.Long = c.long.sig
+	}
 	if c.stdio != nil {
 		rec.Stdio = c.stdio.String()
 	}
@@ -665,6 +711,9 @@ func (e *env) runCase(c caseSpec, col *collector) {
 			}
 		}
 	}
+	if c.long != nil {
+		rec.Env = abbrevAll(rec.Env)
+	}
 	if exited {
 		rec.Status, rec.Signal, _ = p.WaitExit(time.Second)
 	}
@@ -682,6 +731,10 @@ func (e *env) runCase(c caseSpec, col *collector) {
 	}
 	rec.Output = tail(out, 1500)
 	rec.WallMs = time.Since(t0).Milliseconds()
+	if c.long != nil {
+		rec.Output = abbrevRuns(tail(out, 12000))
+		c.long.res = &longResult{exited: exited, listening: listening, status: rec.Status, signal: rec.Signal, out: out, anchors: anchors}
+	}
 	if c.tty != nil && exited && (rec.Status == ttySetupFailed || strings.Contains(out, ttySetupMark)) {
 		// the namespace could not be made although the probe could: not a run
 		r.Count("unusable_tty_setup_failures", 1)
@@ -708,8 +761,8 @@ func (e *env) runCase(c caseSpec, col *collector) {
 	}
 	privPort := false
 	for _, i := range c.faults {
-		r.Count("runs_fault:"+e.faults[i].name, 1)
-		if strings.HasPrefix(e.faults[i].name, clListen+"/privileged-port-") {
+		r.Count("runs_fault:"+e.fault(i).name, 1)
+		if strings.HasPrefix(e.fault(i).name, clListen+"/privileged-port-") {
 			privPort = true
 		}
 	}
@@ -722,7 +775,7 @@ func (e *env) runCase(c caseSpec, col *collector) {
 			r.Count("privileged_port_pairs", 1)
 		}
 	}
-	if defaultCache {
+	if defaultCache && c.long == nil {
 		r.Count("default_location_cache_runs", 1)
 		if !c.noTTY {
 			r.Count("default_location_cache_runs_tty", 1)
@@ -731,12 +784,14 @@ func (e *env) runCase(c caseSpec, col *collector) {
 			r.Count("default_location_cache_pairs", 1)
 		}
 	}
-	switch len(c.faults) {
-	case 0:
+	switch n := len(c.faults); {
+	case c.long != nil:
+		// counted by countLong
+	case n == 0:
 		r.Count("runs_without_file_or_address_fault", 1)
-	case 1:
+	case n == 1:
 		r.Count("singles", 1)
-	case 2:
+	case n == 2:
 		r.Count("pairs", 1)
 	}
 	if c.flag != flNone {
@@ -892,12 +947,15 @@ func (e *env) runCase(c caseSpec, col *collector) {
 				viol("fault-cause-not-named:"+classKey, fmt.Sprintf("with %v injected no message names any of the causes %v", names, classes))
 			}
 		}
+		if c.long != nil && !listening && observable {
+			clean = e.judgeLong(c, out, classes, names, &rec, viol) && clean
+		}
 		if clean {
 			r.Count("faults_reported_cleanly", 1)
 			if privPort {
 				r.Count("privileged_port_faults_reported_cleanly", 1)
 			}
-			if defaultCache {
+			if defaultCache && c.long == nil {
 				r.Count("default_location_cache_faults_reported_cleanly", 1)
 			}
 			if c.stdio != nil {
@@ -937,6 +995,9 @@ func (e *env) runCase(c caseSpec, col *collector) {
 	if c.tty != nil {
 		e.countBadTTY(c, strong, clean, compared)
 	}
+	if c.long != nil {
+		e.countLong(c, strong, clean, compared, classes, len(out))
+	}
 
 	kind := "fault-single"
 	switch {
@@ -968,8 +1029,14 @@ func (e *env) runCase(c caseSpec, col *collector) {
 			kind += "-and-another-fault"
 		}
 	}
+	if c.long != nil {
+		kind = "long-operand-" + strings.Join(classes, "+")
+		if c.long.twin {
+			kind = "long-operand-short-twin"
+		}
+	}
 	r.Sample(kind, rec)
-	if len(c.faults) == 1 && !c.noTTY && c.flag == flNone {
+	if len(c.faults) == 1 && !c.noTTY && c.flag == flNone && c.long == nil {
 		switch {
 		case privPort:
 			r.Sample("fault-privileged-port-as-uid-65534-tty", rec)
@@ -1414,7 +1481,7 @@ func probeUid(r *mon.Run, root string) (bool, string) {
 }
 
 func Run(r *mon.Run) {
-	r.Rule = "one distinct case = (set of injected start-up faults by name, informational flag, TTY or not, and - engines logged/loggedpair - the way an OPENABLE log file is configured on top: -log or CURLREVSHELL_LOG, file fresh or already there; engines stdio/stdiopair - what descriptors 0, 1 and 2 are while the pty stays the CONTROLLING terminal: the terminal, /dev/null, a pipe, a regular file, closed) for fault runs, (way of ending, option set) for clean exits, (way of ending, what descriptors 0-2 are, option set) for clean exits with redirected descriptors (engine stdioclean), (kind of unusable Ctrl+I source or member, member name, -print-ctrl-i on a TTY / without one / into a pipe / into a file or Tab / Ctrl+J followed by Ctrl+C / Ctrl+D, other fault) for the Ctrl+I source runs (engine ctrlisrc), (way of ending, when Tab was pressed relative to it, shell none/attached/stalled, kind of Ctrl+I source, option set) for exits with insertions pending, (signals / terminal events delivered to the running program: SIGCONT alone, to the process or its group, SIGSTOP-SIGCONT, SIGTSTP-SIGCONT, a stop with the terminal handed back and forth as a job-control shell does, SIGWINCH, a real window-size change, a window-size change while stopped, or a drawn sequence of 2-5 of these; the moment: idle prompt, half-typed line, shell attached and talking, muted, right before the exit; the self-exit that follows: Ctrl+C, Ctrl+D, -one-shell completion; option set) for engine signal, (start-up fault whose detection comes after the events: damaged certificate cache delivered through a FIFO, listen address in use; events) for engine sigfault, (what /dev/tty is in the program's private mount namespace: /dev/null, /dev/zero, /dev/full, an empty or non-empty regular file, a socket, a node that may not be read, a pty whose other end has been closed, a directory, nothing, a dangling link, a link loop; informational flag; descriptors 0-2: all on the pty that is the controlling terminal, no controlling terminal and pipes, all /dev/null, or a mixture; optionally one fault of another class) for engines badtty and badttypair; every case is a run of the real, race-built binary judged on exit status, complete output and termios of the pty before/after"
+	r.Rule = "one distinct case = (set of injected start-up faults by name, informational flag, TTY or not, and - engines long/longpair - the length (300, 450, 600, 1000, 1500, 2500, 3900 bytes) and shape (many short components, few components of up to NAME_MAX bytes, mixed; host names: 100-253 characters, one long label, many labels, many words) of each fault's operand, with or without -callback-address values of 2-8 KiB, and - engines logged/loggedpair - the way an OPENABLE log file is configured on top: -log or CURLREVSHELL_LOG, file fresh or already there; engines stdio/stdiopair - what descriptors 0, 1 and 2 are while the pty stays the CONTROLLING terminal: the terminal, /dev/null, a pipe, a regular file, closed) for fault runs, (way of ending, option set) for clean exits, (way of ending, what descriptors 0-2 are, option set) for clean exits with redirected descriptors (engine stdioclean), (kind of unusable Ctrl+I source or member, member name, -print-ctrl-i on a TTY / without one / into a pipe / into a file or Tab / Ctrl+J followed by Ctrl+C / Ctrl+D, other fault) for the Ctrl+I source runs (engine ctrlisrc), (way of ending, when Tab was pressed relative to it, shell none/attached/stalled, kind of Ctrl+I source, option set) for exits with insertions pending, (signals / terminal events delivered to the running program: SIGCONT alone, to the process or its group, SIGSTOP-SIGCONT, SIGTSTP-SIGCONT, a stop with the terminal handed back and forth as a job-control shell does, SIGWINCH, a real window-size change, a window-size change while stopped, or a drawn sequence of 2-5 of these; the moment: idle prompt, half-typed line, shell attached and talking, muted, right before the exit; the self-exit that follows: Ctrl+C, Ctrl+D, -one-shell completion; option set) for engine signal, (start-up fault whose detection comes after the events: damaged certificate cache delivered through a FIFO, listen address in use; events) for engine sigfault, (what /dev/tty is in the program's private mount namespace: /dev/null, /dev/zero, /dev/full, an empty or non-empty regular file, a socket, a node that may not be read, a pty whose other end has been closed, a directory, nothing, a dangling link, a link loop; informational flag; descriptors 0-2: all on the pty that is the controlling terminal, no controlling terminal and pipes, all /dev/null, or a mixture; optionally one fault of another class) for engines badtty and badttypair, (seconds the session lasted: 11, 21, 31; what it was doing: idle, shell attached and talking, muted; the self-exit: Ctrl+C, Ctrl+D, -one-shell completion; option set) for engine aged; every case is a run of the real, race-built binary judged on exit status, complete output and termios of the pty before/after"
 	r.Assumptions = append(r.Assumptions,
 		"the program is started as a session leader on a fresh pty (TTY) or with setsid, no controlling terminal and stdio on pipes/dev-null (no TTY)",
 		"'names the cause' is judged by class keywords (tty|terminal, listen, cach|certificate, log, ctrl+i|insert|source), case-insensitively, on pty+stdout+stderr; the offending path/address is only counted, not demanded",
@@ -1431,6 +1498,9 @@ func Run(r *mon.Run) {
 		"signals and terminal events during the session (engines signal, sigfault): the harness is the parent of the program, which is the leader of its own session and process group on the pty; it delivers with kill(pid) / kill(-pgid): SIGCONT to a program that was never stopped, SIGSTOP then (after 0-120 ms) SIGCONT with the terminal left alone (a supervisor, a debugger), SIGTSTP to the group then SIGCONT (whether the program really stops is only counted: the kernel discards SIGTSTP's default action for the orphaned group of a session leader), SIGSTOP during which the terminal is put in the mode found and then back in the mode the program had set before SIGCONT (what a job-control shell does on stop / fg), SIGWINCH with the window unchanged, TIOCSWINSZ with another size (2-101 rows, 20-299 columns; through a descriptor of the terminal the harness opens via /proc/PID/fd/0), one or two size changes while the program is stopped, and sequences of 2-5 of these; each at the idle prompt, after 1-200 typed characters without Enter, while an attached shell sends a line every 3 ms, after Ctrl+O ('Muting'), and directly before the exit is asked for (for half of those cases, if the events contain a stop, the exit key is typed - or the shell of -one-shell ends - while the program is stopped, with the terminal in the program's own mode); in all but the last moment the exit is only asked for once the program has shown the shell's last line and reacted to a typed key (bounded wait, expiry = inconclusive); then Ctrl+C, Ctrl+D (after Enter, if a line is half typed) or the end of the shell under -one-shell (plus Enter if the program is still there 300 ms after 'Shell is gone': steering only); judged like every clean exit: status 0 (not demanded if the program had already left when it was asked to), no crash output or death by signal, termios of the controlling terminal after exit equal to the one before start; nothing is judged while the program is stopped, every stop is followed by SIGCONT",
 		"start-up faults with signals before the failure is detected: -tls-certificate-cache names a FIFO; the program having changed the terminal sits in the open/read of its cache (the harness sees the FIFO gain a reader), the events are delivered, then the harness writes random bytes / a valid archive cut short / nothing and closes: a damaged certificate cache, noticed after the signals; and the listen address in use with the events sent right after exec, racing the start-up (whatever the order); oracle of the fault runs: non-zero status, a message naming the cause, no crash output, terminal mode restored",
 		"terminals that are there but unusable (engines badtty, badttypair; class 'no controlling terminal' widened from 'there is none' to 'the program cannot use the one it finds'): the harness runs as root and starts the program through a copy of itself that unshares the mount namespace of its thread (CLONE_NEWNS, every mount made private first, the new namespace checked to differ from the parent's), bind-mounts over /dev/tty one of /dev/null, /dev/zero, /dev/full, an empty regular file, a regular file with text, a socket node, a character node of mode 000 (program run as uid 65534), the slave node of a new pty whose master it then closes - or mounts a small tmpfs over /dev (null, zero, full, random, urandom, fd, stdin, stdout, stderr) in which /dev/tty is a directory, absent, a dangling symbolic link or a two-link loop - drops to uid 65534 where the case needs it and replaces itself with the program (same process: still the session leader of the pty); as sandboxes and minimal containers present themselves; a probe run in the same way records per kind what open(/dev/tty) and TIOCGWINSZ/TCGETS give there (open works and the ioctl fails with ENOTTY, or open fails with ENXIO/ENOENT/ELOOP/EACCES/EIO; a kind that turns out to be a working terminal or cannot be built is dropped and listed) and checks that neither the harness's own /dev/tty nor its mount table changed; each kind is run with descriptors 0-2 on the pty that is the controlling terminal, without controlling terminal and on pipes, all on /dev/null, and on mixtures, alone, with each informational flag, and together with a fault of another class; the oracle is the one of the other fault runs: non-zero status, a message naming a cause (tty|terminal, or the other fault's class) where stdout/stderr can be seen, no crash output or signal, termios of the pty unchanged; if no private mount namespace can be made here the dimension is reported as not explored (coverage.unusable_dev_tty_dimension_explored=false, a line here) and has no floors; FIFOs are left out (opening one for reading waits for a writer: not a failure)",
+		"long but legal operands (engines long, longpair, longtwin; the fault classes widened from 'an operand of a few dozen bytes' to 'any operand the system accepts'): the cache faults (below a regular file, is a directory, truncated / garbage / empty content, and as uid 65534 directory not writable / parent not writable / directory not searchable, default location below a HOME or XDG_CACHE_HOME that is below a regular file), the log faults (is a directory, below a regular file, as uid 65534 directory / file not writable) and the missing Ctrl+I sources (absent, dangling link whose target is long as well) with absolute paths of 300, 450, 600, 1000, 1500, 2500 and 3900 bytes made of hundreds of components of 4-15 bytes, of components of 200-255 bytes (the first one exactly NAME_MAX = 255), or of components of any length up to 255 (so neither ENAMETOOLONG nor PATH_MAX is the fault); listen addresses whose host is a name that cannot be resolved: a syntactically valid name of 100-253 characters below .onion, one label of 300-3900 characters, many labels of 10-63 characters adding up to 300-3900, many words with blanks between them - with :0, :4444 or no port; these runs have GODEBUG=netdns=go in their environment, so that the program's resolver is Go's own, which answers for all of these names by itself (RFC 7686; not a domain name): nothing is sent to a name server, the failure is immediate and does not depend on the network; every third case additionally has one or two -callback-address values of 2-8 KiB; quick: three lengths and shapes per fault (at least two of the lengths 600 bytes or more), log and Ctrl+I faults once without a terminal, 10 drawn cross-class pairs; thorough: every (fault, length, shape) and 80 pairs; names are drawn from an alphabet that cannot spell a cause keyword",
+		"oracle of the long-operand runs: that of every fault run (non-zero status, a message with the class's cause keywords anywhere in it, no crash output or signal, terminal mode restored) and one relation: the same fault is run once with SHORT operands (same objects, two short components, a short host name; engine longtwin); the words of that message after its last mention of the operand, to the end of the line ('not a directory', 'permission denied', 'is a directory', 'no such file or directory', 'no such host', 'no suitable address found', ...) are the program's own words for the cause of that fault - in a Go error chain the cause comes last - and the message for the long operand must contain them too (line breaks ignored); the class keywords alone cannot tell a message that names the cause from one that was cut off in the middle of the path, because they precede the operand; nothing is judged about whether or how the operand itself is shown (complete, abbreviated, not at all: only counted); where the short message does not mention the operand or says nothing after it (counted, logged) only the keyword oracle applies",
+		"session age (engine aged): the program says that it listens, is left alone for 11, 21 or 31 s - nobody attached and nothing typed; a shell attached that sends a line every 40 ms; the same with Ctrl+O pressed 0.8 s before the end ('Muting until' awaited, expiry = inconclusive) - and is then asked to leave by Ctrl+C, Ctrl+D or the end of the shell under -one-shell (plus Enter if the program is still there 300 ms after 'Shell is gone': steering only); all sessions run at the same time as the other engines, from the beginning of the run; the clock only decides when the exit is asked for, the verdict is that of every clean exit: status 0 (not demanded if the program had already left), no crash output or death by signal, termios of the controlling terminal after the exit equal to the one before the start; quick: every (exit, activity) once with the ages dealt out as a Latin square rotated by the seed (each age three times), thorough: all 27",
 		"default-location cache faults: no -tls-certificate-cache argument; HOME / XDG_CACHE_HOME point below /proc, below a regular file, or (uid 65534) into a root-owned 0555 directory",
 	)
 
@@ -1516,6 +1586,29 @@ func Run(r *mon.Run) {
 		}
 		return append(n, clNoTTY)
 	}())
+
+	col := &collector{}
+	guard := func(what string, f func()) {
+		defer func() {
+			if x := recover(); x != nil {
+				r.Inconclusive(fmt.Sprintf("%s: harness error: %v", what, x))
+			}
+		}()
+		f()
+	}
+
+	// ---- session age: clean exits after 11, 21 and 31 seconds ----
+	// All of them at once, side by side with everything below.
+	agedDone := make(chan struct{})
+	go func() {
+		defer close(agedDone)
+		ag := agedList(r)
+		mon.Parallel(len(ag), len(ag), func(i int) {
+			guard(fmt.Sprintf("aged-%d", ag[i]), func() { e.runAged(ag[i], col) })
+		})
+		r.Logf("exits after sessions of 11-31 s done")
+	}()
+	defer func() { <-agedDone }()
 
 	// ---- case lists ----
 	var cases []caseSpec
@@ -1737,20 +1830,19 @@ func Run(r *mon.Run) {
 	if e.ttyw != nil {
 		badTTYCases(e, e.ttyw, func(c caseSpec) { cases = append(cases, c) })
 	}
+	// ---- the faults again, with long but legal operands ----
+	longCases(e, uidOK, func(c caseSpec) { cases = append(cases, c) })
 	r.Extra("fault_pairs_possible", len(prs))
 	r.Logf("%d faults, %d cross-class pairs, %d fault runs planned", len(e.faults)+1, len(prs), len(cases))
 
-	col := &collector{}
-	guard := func(what string, f func()) {
-		defer func() {
-			if x := recover(); x != nil {
-				r.Inconclusive(fmt.Sprintf("%s: harness error: %v", what, x))
-			}
-		}()
-		f()
-	}
 	mon.Parallel(len(cases), 12, func(i int) {
-		guard(fmt.Sprintf("%s-%d", cases[i].engine, cases[i].index), func() { e.runCase(cases[i], col) })
+		guard(fmt.Sprintf("%s-%d", cases[i].engine, cases[i].index), func() {
+			if cases[i].long != nil {
+				e.runLong(cases[i], col)
+			} else {
+				e.runCase(cases[i], col)
+			}
+		})
 	})
 	r.Logf("fault runs done")
 
@@ -1879,9 +1971,10 @@ func Run(r *mon.Run) {
 	})
 	r.Logf("exits with insertions pending done")
 	<-sgDone
+	<-agedDone
 
 	// Report in a fixed order (engine, index), not in completion order.
-	order := map[string]int{"single": 0, "pair": 1, "logged": 2, "loggedpair": 3, "stdio": 4, "stdiopair": 5, "clean": 6, "icanhazip": 7, "stdioclean": 8, "ctrlisrc": 9, "pending": 10, "signal": 11, "sigfault": 12, "badtty": 13, "badttypair": 14}
+	order := map[string]int{"single": 0, "pair": 1, "logged": 2, "loggedpair": 3, "stdio": 4, "stdiopair": 5, "clean": 6, "icanhazip": 7, "stdioclean": 8, "ctrlisrc": 9, "pending": 10, "signal": 11, "sigfault": 12, "badtty": 13, "badttypair": 14, "longtwin": 15, "long": 16, "longpair": 17, "aged": 18}
 	sort.SliceStable(col.fs, func(i, j int) bool {
 		a, b := col.fs[i], col.fs[j]
 		if order[a.engine] != order[b.engine] {
@@ -1999,6 +2092,9 @@ func Run(r *mon.Run) {
 	sigFloors(r)
 	// /dev/tty is there but unusable.
 	badTTYFloors(e)
+	// Long but legal operands; sessions that lasted.
+	longFloors(r, uidOK)
+	agedFloors(r)
 	r.Floor("runs_tty", 50)
 	r.Floor("runs_notty", 25)
 	r.Floor("termios_comparisons", 50)
